@@ -303,7 +303,7 @@ func partialsFor(f model.Expr) map[string][]model.Node {
 	}
 }
 
-const rule = "(E1, mini-AST + reference interpreter) each of 8 faults - a helper returning a sentinel error, 1/0, 1 + \"a\", arr[99], an unknown identifier, a helper whose error WRAPS an unknown-identifier error (as a nested render does), helpers with a HISTORY that return 1 until their 2nd / 3rd invocation of the render and fail from then on - planted at each of 102 syntactic positions: either operand of all 13 operators, short-circuited operands, !, emitted, silent tag, let / assignment value, if / else-if condition (reached, not reached, followed by else / by a further else-if, second else-if after an unknown one, silent), taken / untaken / else branch body, silent if body, loop iterable / body / second iteration / empty loop / silent loop, loops over the built-in range iterator and a custom Iterator (body, last iteration, every element, silent body inside a function), a map loop in which one / no / every entry reaches the fault (repeated, any visiting order), array element, hash value, index, argument of Go helper / user function, user function body (called / not called), block of a block helper, contentFor block rendered / never rendered by contentOf, contentOf / partial data value, partial body, nested partial body, after 750 bytes of output; and ONE call site evaluated SEVERAL times in one render: a user function called three times (emitted, as a condition, rendering), recursion (innermost level / every level), a partial / nested partial three times and in a loop, a stored block rendered three times, a helper block in a loop, nested loops, a loop in a function called twice, if / else-if conditions and operands of ! == != && || (either side, other side unknown) in a loop, array element / hash value / helper argument / let value in a loop. (R1) random well-formed programs over all constructs in which about one leaf in seven is one of these faults; (R2) the same wrapped so that the whole program is evaluated more than once in one render (body of a loop over a slice / range / a custom iterator / a map, of a function called twice, of a partial, a stored block or a helper block used twice). Oracle for E1 R1 R2: the statement's own (failing helper invoked => non-nil error, errors.Is(err, original), empty output) plus, in both directions, the reference interpreter: the render fails exactly when the reference says a fault is evaluated outside the tolerated positions (unknown identifier as condition or operand of ! == != && ||), and otherwise renders the reference output. (E2, raw templates for what the mini-AST cannot spell) 76 faults x 293 hand-written positions. Faults: instrumented failing helpers of every signature and error type (variadic, error-only result, three results, typed error, errors that are values - a field-less struct, int and string kinds holding 0 and \"\", a struct with zero fields: the zero value of a type is still an error -, a BARE *ErrUnknownIdentifier, one wrapping it, given a block, value / pointer / field / element / chained methods, member / index / call / method of a failing result, failing helper as a fixed parameter, in the fixed head and in the tail of a variadic helper, in an options map, as argument of a method, a partial whose feeder / body / layout fails or whose layout is missing, a nested Render through the helper context, a failing block of a block helper / of htmlEscape / default block of contentOf, a function literal called on the spot, a helper held in a variable), helpers that panic (with a string / with an error: failure and empty output asserted, not errors.Is), failing operations (division by a zero variable, float division by zero, mismatched operands, out-of-range / string / int-target indexing, call of a non-function, too many / wrongly typed arguments, missing field / method, member of a string, bad regular expression, missing contentOf block, len of an int, groupBy(0), pathFor(nil), toJSON of a function, loop over an int; index assignment out of range / into an int / of the wrong element type / with a failing value or index, let with a failing value), and values that cannot be PRINTED (a slice containing itself, String / HTML methods that panic; only in positions seen to print a probe value). That an operation is a fault is not read off the implementation: its baseline (the fault alone in one tag) must fail, otherwise it is dropped and counted - except for eight operations that have no result under any reading (those the reference interpreter fails on, and assignment to an index that does not exist), whose baseline succeeding is itself a violation. Positions: parentheses; ! !! and ! over == / ||; either side of == != && || with the other side 1 / nil / unknown; || and && chains; nestings of the tolerant operators; both sides of the 9 other operators; if conditions (plain, negated, == nil, unknown || it, unknown == it, it && unknown, silent, in one tag), else-if conditions in 8 chain shapes, conditions inside taken branches; branch bodies and return in a branch; array / hash / nested literals; index / second index / index before a member / of a map; arguments of helpers with one, two, variadic, fixed-head-variadic parameters, of methods, in options maps before a helper context, of block helpers, of len raw range truncate capitalize debug toJSON groupBy, nested calls; name / data / layout of a partial, name / data of contentOf, name of contentFor; let, assignment, index assignment (value and index), top-level return; user functions (arguments, return, silent call, as condition / under == / under ! / in an else-if, rendering body, let and condition inside, called through another function, innermost recursion level, passed through a helper); loops over 15 kinds of iterable (slice, typed slice, string slice, Go array, pointer to a slice, array literal, maps with 1 / 3 / int keys, hash literal, range until between groupBy, a custom Iterator) x body / silent body / condition in the body, second iteration only, after continue, before break, inner loop body / iterable, loops inside functions; blocks of helpers (child / same context, silent, rendered twice, with argument, htmlEscape, default block of contentOf with / without data, block in block / loop / function, as a condition), contentFor blocks rendered by contentOf (with data, by a contentOf that has a default block of its own - a failing stored block is not 'nothing stored' -, second use only, inside a block, as a condition, under ==, inside a partial, redefined, defined in a partial and rendered by its layout); partials (body, silent tag, condition, as condition / under == / ! / else-if, silent call, nested 2 and 3 deep, layout before / after yield, body under a layout, layout of a layout, in a loop, second iteration only, in a block, in a function, block / loop / contentFor inside a partial, data used inside); nested Render (plain, as a condition, in a block in a partial); after / before 900 bytes of output, last of 41 tags, after a forgiven unknown identifier, after an identical call site in an untaken branch, on line 5; statement positions (silent tag, branches, loops, function, block, contentFor, partial); 10 OPEN positions where nothing says whether the placeholder is evaluated (arguments beyond a user function's parameters, arguments of calls refused for their arity or an earlier argument's type, of a non-function, of an unknown function: only the statement's own oracle applies there); and 23 positions in which the placeholder is NOT evaluated (short-circuit, untaken branches, later else-ifs, uncalled function, after return / break / continue, empty loops, never-rendered contentFor / partial / block, default block of contentOf when the contentFor exists, shadowed contentFor), where the render must succeed with the given text. Every position's claim is validated with a helper that simply succeeds (it must run / must not run), else the position is dropped and counted. (E3) 65 call sites evaluated N = 2..4 times in one render (loops over 13 kinds of iterable x body / condition / operand of ==, identical sites, operands, elements, arguments, functions, recursion, blocks rendered twice / in loops, stored blocks and partials used three times, layouts, nested Render) x the invocation K = 1..N+1 on which the helper fails (K <= N must fail, K = N+1 must render the given text) x 9 entry points. (E4) ONE call site whose CALLEE changes between evaluations: helpers that cannot fail, of four result types, and then one of 11 failing helpers, through a template function applied to helpers, a loop over helpers, a variable rebound in a loop, a hash of helpers and a condition, x 3 entry points. (R3) random (position, fault) through the other entry points: Template.Exec after a healthy Exec of the same Template (helpers succeed, divisor non-zero), Exec twice, Clone, Render with the template cache on after a healthy / a failing render, RenderR, BuffaloRenderer, data in the outer context. Oracle for E2 E3 R3: the statement's own, plus the construction of the position (placeholder evaluated => the render fails; not evaluated => it renders the given text). Non-trivial = the program contains a fault (reached or not); distinct by template + partial texts (E1 R1 R2) or by position + fault + entry point (E2 E3 R3)."
+const rule = "(E1, mini-AST + reference interpreter) each of 8 faults - a helper returning a sentinel error, 1/0, 1 + \"a\", arr[99], an unknown identifier, a helper whose error WRAPS an unknown-identifier error (as a nested render does), helpers with a HISTORY that return 1 until their 2nd / 3rd invocation of the render and fail from then on - planted at each of 102 syntactic positions: either operand of all 13 operators, short-circuited operands, !, emitted, silent tag, let / assignment value, if / else-if condition (reached, not reached, followed by else / by a further else-if, second else-if after an unknown one, silent), taken / untaken / else branch body, silent if body, loop iterable / body / second iteration / empty loop / silent loop, loops over the built-in range iterator and a custom Iterator (body, last iteration, every element, silent body inside a function), a map loop in which one / no / every entry reaches the fault (repeated, any visiting order), array element, hash value, index, argument of Go helper / user function, user function body (called / not called), block of a block helper, contentFor block rendered / never rendered by contentOf, contentOf / partial data value, partial body, nested partial body, after 750 bytes of output; and ONE call site evaluated SEVERAL times in one render: a user function called three times (emitted, as a condition, rendering), recursion (innermost level / every level), a partial / nested partial three times and in a loop, a stored block rendered three times, a helper block in a loop, nested loops, a loop in a function called twice, if / else-if conditions and operands of ! == != && || (either side, other side unknown) in a loop, array element / hash value / helper argument / let value in a loop. (R1) random well-formed programs over all constructs in which about one leaf in seven is one of these faults; (R2) the same wrapped so that the whole program is evaluated more than once in one render (body of a loop over a slice / range / a custom iterator / a map, of a function called twice, of a partial, a stored block or a helper block used twice). Oracle for E1 R1 R2: the statement's own (failing helper invoked => non-nil error, errors.Is(err, original), empty output) plus, in both directions, the reference interpreter: the render fails exactly when the reference says a fault is evaluated outside the tolerated positions (unknown identifier as condition or operand of ! == != && ||), and otherwise renders the reference output. (E2, raw templates for what the mini-AST cannot spell) 78 faults x 293 hand-written positions. Faults: instrumented failing helpers of every signature and error type (variadic, error-only result, three results, typed error, errors that are values - a field-less struct, int and string kinds holding 0 and \"\", a struct with zero fields: the zero value of a type is still an error -, a BARE *ErrUnknownIdentifier, one wrapping it, given a block, value / pointer / field / element / chained methods, member / index / call / method of a failing result, failing helper as a fixed parameter, in the fixed head and in the tail of a variadic helper, in an options map, as argument of a method, a partial whose feeder / body / layout fails or whose layout is missing, a nested Render through the helper context, a failing block of a block helper / of htmlEscape / default block of contentOf, a function literal called on the spot, a helper held in a variable), helpers that panic (with a string / with an error: failure and empty output asserted, not errors.Is), failing operations (division by a zero variable, float division by zero, mismatched operands, out-of-range / string / int-target indexing, call of a non-function, too many / wrongly typed arguments, missing field / method, member of a string, bad regular expression, missing contentOf block, len of an int, groupBy(0), pathFor(nil), toJSON of a function, loop over an int / a bool / a float; index assignment out of range / into an int / of the wrong element type / with a failing value or index, let with a failing value), and values that cannot be PRINTED (a slice containing itself, String / HTML methods that panic; only in positions seen to print a probe value). That an operation is a fault is not read off the implementation: its baseline (the fault alone in one tag) must fail, otherwise it is dropped and counted - except for ten operations that have no result under any reading (those the reference interpreter fails on, and assignment to an index that does not exist), whose baseline succeeding is itself a violation. Positions: parentheses; ! !! and ! over == / ||; either side of == != && || with the other side 1 / nil / unknown; || and && chains; nestings of the tolerant operators; both sides of the 9 other operators; if conditions (plain, negated, == nil, unknown || it, unknown == it, it && unknown, silent, in one tag), else-if conditions in 8 chain shapes, conditions inside taken branches; branch bodies and return in a branch; array / hash / nested literals; index / second index / index before a member / of a map; arguments of helpers with one, two, variadic, fixed-head-variadic parameters, of methods, in options maps before a helper context, of block helpers, of len raw range truncate capitalize debug toJSON groupBy, nested calls; name / data / layout of a partial, name / data of contentOf, name of contentFor; let, assignment, index assignment (value and index), top-level return; user functions (arguments, return, silent call, as condition / under == / under ! / in an else-if, rendering body, let and condition inside, called through another function, innermost recursion level, passed through a helper); loops over 15 kinds of iterable (slice, typed slice, string slice, Go array, pointer to a slice, array literal, maps with 1 / 3 / int keys, hash literal, range until between groupBy, a custom Iterator) x body / silent body / condition in the body, second iteration only, after continue, before break, inner loop body / iterable, loops inside functions; blocks of helpers (child / same context, silent, rendered twice, with argument, htmlEscape, default block of contentOf with / without data, block in block / loop / function, as a condition), contentFor blocks rendered by contentOf (with data, by a contentOf that has a default block of its own - a failing stored block is not 'nothing stored' -, second use only, inside a block, as a condition, under ==, inside a partial, redefined, defined in a partial and rendered by its layout); partials (body, silent tag, condition, as condition / under == / ! / else-if, silent call, nested 2 and 3 deep, layout before / after yield, body under a layout, layout of a layout, in a loop, second iteration only, in a block, in a function, block / loop / contentFor inside a partial, data used inside); nested Render (plain, as a condition, in a block in a partial); after / before 900 bytes of output, last of 41 tags, after a forgiven unknown identifier, after an identical call site in an untaken branch, on line 5; statement positions (silent tag, branches, loops, function, block, contentFor, partial); 10 OPEN positions where nothing says whether the placeholder is evaluated (arguments beyond a user function's parameters, arguments of calls refused for their arity or an earlier argument's type, of a non-function, of an unknown function: only the statement's own oracle applies there); and 23 positions in which the placeholder is NOT evaluated (short-circuit, untaken branches, later else-ifs, uncalled function, after return / break / continue, empty loops, never-rendered contentFor / partial / block, default block of contentOf when the contentFor exists, shadowed contentFor), where the render must succeed with the given text. Every position's claim is validated with a helper that simply succeeds (it must run / must not run), else the position is dropped and counted. (E3) 65 call sites evaluated N = 2..4 times in one render (loops over 13 kinds of iterable x body / condition / operand of ==, identical sites, operands, elements, arguments, functions, recursion, blocks rendered twice / in loops, stored blocks and partials used three times, layouts, nested Render) x the invocation K = 1..N+1 on which the helper fails (K <= N must fail, K = N+1 must render the given text) x 9 entry points. (E4) ONE call site whose CALLEE changes between evaluations: helpers that cannot fail, of four result types, and then one of 11 failing helpers, through a template function applied to helpers, a loop over helpers, a variable rebound in a loop, a hash of helpers and a condition, x 3 entry points. (R3) random (position, fault) through the other entry points: Template.Exec after a healthy Exec of the same Template (helpers succeed, divisor non-zero), Exec twice, Clone, Render with the template cache on after a healthy / a failing render, RenderR, BuffaloRenderer, data in the outer context. Oracle for E2 E3 R3: the statement's own, plus the construction of the position (placeholder evaluated => the render fails; not evaluated => it renders the given text). Non-trivial = the program contains a fault (reached or not); distinct by template + partial texts (E1 R1 R2) or by position + fault + entry point (E2 E3 R3)."
 
 func setup(t *testing.T) *vk.Run {
 	r := vk.Start(t, "C05", rule,
@@ -656,6 +656,7 @@ func (fx *rawFix) data(c *RawCase) map[string]interface{} {
 		},
 		"tick": func() int { fx.tick++; return 1 },
 		// helpers that cannot fail, of other types than the failing ones (for call sites whose callee changes)
+		"btrue": true, "fl15": 1.5,
 		"okplain": func() string { return "." },
 		"okint":   func() int { return 1 },
 		"okvoid":  func() {},
@@ -808,6 +809,8 @@ var rawFaults = []rawFault{
 	{Name: "pathFor(nil)", Text: `pathFor(nil)`},
 	{Name: "toJSON of a function", Text: `toJSON(id)`},
 	{Name: "loop over an int", Text: `for (v) in i1 { %>x<% }`}, // (not Sure: an engine may define ranging over an integer)
+	{Name: "loop over a bool", Text: `for (v) in btrue { %>x<% }`, Sure: true},
+	{Name: "loop over a float", Text: `for (v) in fl15 { %>x<% }`, Sure: true},
 	// values that cannot be printed
 	{Name: "printing a slice that contains itself", Text: `selfslice`, EmitOnly: true},
 	{Name: "printing a value whose String panics", Text: `badstr`, EmitOnly: true},
